@@ -38,6 +38,9 @@ def gen_case(rng, cid, big=False):
             ls.append(rng.choice(ls))                 # duplicate
         elif ls and r < 0.3:
             ls.append(S.neg(rng.choice(ls)))          # complement
+        elif ls and r < 0.36:
+            x = rng.choice(ls)                        # duplicate and complement of the same literal
+            ls += [S.neg(x), x]
         rng.shuffle(ls)
         return ls
     nops = rng.randint(3, 12)
@@ -96,6 +99,17 @@ def gen_exhaustive_small():
                     lines.append(op + " " + " ".join(S.show_lit(x) for x in ls))
                     lines.append(op + " " + " ".join(S.show_lit(x) for x in reversed(ls)))
                     out += lines
+    # argument lists with repeated variables and constants (duplicates that are not adjacent
+    # after sorting by variable, complements, TRUE_lit / FALSE_lit twice)
+    alphabet = ["+1", "-1", "+2", "-2", "-0", "+0"]
+    for op in ("amo", "exo", "conj", "disj"):
+        for n in (2, 3):
+            for ls in itertools.product(alphabet, repeat=n):
+                if len({x[1:] for x in ls}) == n:
+                    continue            # all variables distinct: covered above
+                for root in ("", "c +2", "c -2"):
+                    cid += 1
+                    out += [f"case y{cid}", "v", "v"] + ([root] if root else []) + [op + " " + " ".join(ls)]
     return out
 
 
@@ -323,6 +337,8 @@ def run(tier, seed, replay=None):
                 first = k
             sp = split_out(io or "")
             if sp and op in ("c", "prop") and sp[0] == "F":
+                if first == k and split_out(mo or "") and split_out(mo)[0] == "F":
+                    first = None        # both report the inconsistency: the state after it is not compared
                 break
         if first is not None:
             mism.append((ci, first))
